@@ -10,7 +10,14 @@ every fake-redis command, every dict_lock method) parks the calling client until
 it one step.  The recorded primitive sequence, every response and every returned value must be exactly
 what the model produces on the same operation histories and schedule (evaluated inside coqc).
 Search: the same recorded histories are judged by the abstract lock specification in Python
-(linearizability search per lock name + the property's clauses), independent of Coq."""
+(linearizability search per lock name + the property's clauses), independent of Coq.
+Keep-alive backend with its helper process (Props/C04.v: C04_keepalive_failed_is_sticky_against_the_helper, over
+Model/Keepalive.v): in the lock-step runs above the helper is not started; the one operation it can interfere with,
+the holder's fail() = stop the helper ; write the failed stamp, is driven by harness/c19.py's simulation (REAL lock
+class, REAL monitor main() on a simulated clock, started as the recorded Popen call says) with a wake-up of the
+helper scheduled before, after and BETWEEN the two primitives; the recorded order of the primitives, the helper's
+refreshes and what other clients see are compared with the model in coqc and judged directly (after fail()
+returned True, is_locked()/is_failed() stay True and get() stays False until the lock file is removed)."""
 import os
 import stat as stat_mod
 import threading
@@ -35,6 +42,7 @@ from . import core
 from .core import zlit, listlit, boollit, optlit
 from . import jugrun
 from . import fakeredis
+from . import c19
 from jug.backends import file_store as fs
 from jug.backends import dict_store as ds
 from jug.backends import redis_store as rs
@@ -848,7 +856,9 @@ def run(ck):
         'well-formed use of the lock API: release()/fail() only by the holder or on a failed lock (Task.unlock docstring; what '
         'execution_loop and cleanup --failed-only do)',
         'one frozen clock during a run: time() >= failed time stamp + expiry (1801 s after the epoch) and no held keep-alive lock '
-        'gets older than the expiry (C19 proves that for live holders); the keep-alive helper process is not started (C19)',
+        'gets older than the expiry (C19 proves that for live holders); in the lock-step runs the keep-alive helper process is not '
+        'started; fail() against a running helper: one loop body of the helper is atomic and Popen.kill() takes effect before the '
+        'holder\'s next primitive (stop_monitor() does not wait() for the helper)',
         'nobody but the modelled clients touches the lock files / keys',
     ]
     thorough = ck.tier == 'thorough'
@@ -894,11 +904,42 @@ def run(ck):
     for i in (fails or []):
         w, plans = meta[i]
         ck.violation(replay_obj(w, plans, {'kind': 'correspondence', 'what': what_for_tie(w), 'coq_case': cases[i]}))
+    keepalive_helper_section(ck)
+
+
+def keepalive_helper_section(ck):
+    """fail() of the keep-alive lock against its running helper (the os-level interposer is not installed here)"""
+    t2 = _time.time()
+    C, terr = c19.source_constants()
+    if terr:
+        ck.notes.append('translator failed, the keep-alive section uses the documented constants: ' + terr)
+    ck.trusted_base = ck.trusted_base + c19.TRUSTED
+    extra = {'keepalive_scenario': True}
+    with jugrun.scratch_dir('jugv04k') as root:
+        scns = c19.fail_window_scenarios(C)
+        for _ in range(ck.n(40, 2000)):
+            scn = c19.gen_scenario(ck.rng, C, 1)
+            if any(a[1] == 'fail' for a in scn['actions']):
+                scns.append(scn)
+        before = dict(ck.dist)
+        kcases, kmeta = c19.judge_scenarios(ck, scns, root, C, prop='C04', tag=' (keep lock, helper running)', extra=extra)
+        # keep C04's distribution readable: only the counters of this section that matter here
+        keep = ('fail():', 'helper-end:killed', 'refreshes')
+        for k in list(ck.dist):
+            if k not in before and not k.startswith(keep):
+                del ck.dist[k]
+            elif k in before and not k.startswith(keep):
+                ck.dist[k] = before[k]
+        ck.count('keep-alive fail() vs helper: scenarios', len(scns))
+        c19.tie_scenarios(ck, 'keepfail', kcases, kmeta, root, C, prop='C04', shard=60, extra=extra)
+    ck.count('seconds:keep-alive fail() against the helper', round(_time.time() - t2))
 
 
 # ------------------------------------------------------------------------------------------------
 def replay(obj):
     """Re-execute one recorded run (plans + schedule) against /repo."""
+    if obj.get('keepalive_scenario'):
+        return c19.replay(obj, prop='C04')
     if not obj.get('plans'):
         print('replay: nothing to re-execute (%s)' % obj.get('kind'))
         for b in obj.get('no_longer_checks', []):
